@@ -48,6 +48,17 @@ CHECKS = {
             "Complete decision table of calc_state_with_addr for the six kinds, all addresses, all ABWCR/ASTCR/WCRH/WCRL/DRCRA values, counts 0-18: "
             "equals the reference (1 / 2 / 2 / 3+w / 4+w, doubled for word kinds on an 8-bit bus), linear in the count, independent of other areas; "
             "calc_state costs at operating_pc and rejects L/M.", "4 C19"),
+    "C10": ("abstract interpretation of try_interrupt (symbolic CCR, queue and entry summarised as effects) + who-may-call / who-may-touch tables",
+            "A request is popped/entered only on traces whose path condition implies CCR.I = 0; entered vector == popped number, once; with I set nothing "
+            "is consumed; interrupt() only from try_interrupt only from run, before fetch, never from inside exec; the queue is touched only by "
+            "push_back/pop_front; requesters pass constants in 1..63. Whole-execution exactly-once delivery is the closure of these, not mechanised.", "4 C10"),
+    "C13": ("abstract interpretation of one generalised iteration of Cpu::run (loop-carried state havocked at the loop header) + call-graph denylist",
+            "For all counter values, charges, PCs: error propagation, Ok only at PC == exit address, one time base (3 x charge added to the total, mirrored to "
+            "the bus before peripherals, same amount given to peripherals), sync exactly at each 2,000,000 crossing with the new total, counter invariant; "
+            "host-clock taint reaches no guest-visible value or effect argument; no nondeterminism source reachable from run.", "4 C13"),
+    "C18": ("abstract interpretation over abstract strings (terms): message loop of run, parse_u8/parse_ioport, send worker; call-chain facts of the channel plumbing",
+            "Two consecutive symbolic lines per batch: the second is always fetched unless the first is cmd:stop; keyword dispatch, pause flag function, "
+            "parse rules (3 fields, hex, errors swallowed, no panic), escape order backslash-then-newline + terminator, one write+flush per message.", "4 C18"),
 }
 
 checks = []
